@@ -21,6 +21,7 @@ def run(chk, prog, tier):
     SUCC.succ_rule(chk, tab, prog, only={("name", "push"), ("name", "xchg"), ("type", "DATA_TRANSFER"), ("type", "SHIFT"),
                                          ("type", "OPERATION"), ("type", "PAD_ALWAYS")})
     SUCC.sibling_guard_rule(chk, prog)
+    SUCC.class_rules(chk, prog)
     from valib import pipeline as PLo
     PLo.prefix_after_rewrite_rule(chk, prog)
     from valib import pipeline as PL
